@@ -67,7 +67,8 @@ type legCtx struct {
 	// progress ticks with every completed client operation of the running trial (the watchdog's notion of "not stuck")
 	progress atomic.Int64
 	// goroutines that existed before the running trial began (what earlier trials left behind is not this trial's doing)
-	baseline goroutineDump
+	baseline      goroutineDump
+	quiesceRounds int
 }
 
 func (l *legCtx) count(k string, n int64) {
@@ -558,6 +559,8 @@ func (l *legCtx) filtersTrial(r *vh.RNG, t int, fx *fixtures) {
 	var sent atomic.Int64
 	ewg.Add(1)
 	go emitter(fc, fx, stop, &ewg, &sent)
+	var leftMu sync.Mutex
+	var leftover []ethrpc.ID // filters the workers leave installed (uninstalled at the end of the trial, see below)
 	nWorkers := r.Range(3, 8)
 	for wi := 0; wi < nWorkers; wi++ {
 		wr := vh.Derive(r.U64(), "w", uint64(wi))
@@ -598,7 +601,11 @@ func (l *legCtx) filtersTrial(r *vh.RNG, t int, fx *fixtures) {
 						runtime.Gosched()
 					}
 				}
-				if wr.Chance(9, 10) {
+				if !wr.Chance(9, 10) {
+					leftMu.Lock()
+					leftover = append(leftover, id)
+					leftMu.Unlock()
+				} else {
 					api.UninstallFilter(id)
 					l.count("filters_uninstalled", 1)
 					// a client retry / duplicate request in a batch: the same id uninstalled again, at once or concurrently
@@ -682,10 +689,105 @@ func (l *legCtx) filtersTrial(r *vh.RNG, t int, fx *fixtures) {
 	}
 	var uwg sync.WaitGroup
 	uwg.Add(1)
-	go func() { defer uwg.Done(); api.UninstallFilter(id) }()
-	if stuck, frames := l.waitOrStuck(&uwg, "rpc/namespaces/ethereum/eth/filters", "rpc/ethereum/pubsub"); stuck && frames != "" {
-		l.viol("deadlock:filter-system", "filters", map[string]any{"trial": t, "phase": "uninstall of the probe filter", "stable_blocked_set": trunc(frames, 6000)})
+	go func() {
+		defer uwg.Done()
+		api.UninstallFilter(id)
+		// ... and every filter the storm left installed
+		leftMu.Lock()
+		ids := append([]ethrpc.ID{}, leftover...)
+		leftMu.Unlock()
+		for _, x := range ids {
+			api.UninstallFilter(x)
+		}
+		l.count("filters_uninstalled_at_the_end_of_the_trial", int64(len(ids)))
+	}()
+	if stuck, frames := l.waitOrStuck(&uwg, "rpc/namespaces/ethereum/eth/filters", "rpc/ethereum/pubsub"); stuck {
+		if frames != "" {
+			l.viol("deadlock:filter-system", "filters", map[string]any{"trial": t, "phase": "uninstall of the probe filter", "stable_blocked_set": trunc(frames, 6000)})
+		}
+		return
 	}
+	l.filterGoroutinesMustEnd(t)
+}
+
+// filterLoops are the per-filter goroutines of PublicFilterAPI (polling filters): each serves one installed filter and
+// ends when the filter is uninstalled.
+var filterLoops = []string{"PublicFilterAPI).NewPendingTransactionFilter.func1", "PublicFilterAPI).NewBlockFilter.func1", "PublicFilterAPI).NewFilter.func1"}
+
+// filterGoroutinesMustEnd: no event flows any more and every filter of this trial has been uninstalled. The goroutines that
+// served them (born in this trial) have to end; the verdict is about the ones that never come to rest: the count of such
+// goroutines is followed until it stops falling (logical quiescence, bounded by 30 s), and a goroutine that is then still
+// there and is found runnable, running or queueing for a mutex in each of five samples spread over half a second is spinning
+// on behalf of a filter that no longer exists.
+func (l *legCtx) filterGoroutinesMustEnd(t int) {
+	alive := func() (goroutineDump, map[string]string) {
+		d := dumpGoroutines()
+		out := map[string]string{}
+		for id, g := range d {
+			if _, old := l.baseline[id]; old {
+				continue
+			}
+			for _, fl := range filterLoops {
+				if strings.Contains(g[1], fl) {
+					out[id] = fl
+				}
+			}
+		}
+		return d, out
+	}
+	_, cur := alive()
+	for quiet := 0; quiet < 5; {
+		time.Sleep(100 * time.Millisecond)
+		_, next := alive()
+		if len(next) < len(cur) {
+			quiet = 0
+		} else {
+			quiet++
+		}
+		cur = next
+		if len(cur) == 0 {
+			break
+		}
+		if l.quiesceRounds++; l.quiesceRounds > 300 {
+			break
+		}
+	}
+	l.quiesceRounds = 0
+	l.count("filters_trials_checked_for_goroutines_outliving_their_filters", 1)
+	if len(cur) == 0 {
+		l.count("filters_trials_where_every_filter_goroutine_ended", 1)
+		return
+	}
+	busy := map[string]int{}
+	for id := range cur {
+		busy[id] = 0
+	}
+	var last goroutineDump
+	for s := 0; s < 5; s++ {
+		time.Sleep(100 * time.Millisecond)
+		d, _ := alive()
+		last = d
+		for id := range busy {
+			if g, ok := d[id]; ok && (g[0] == "runnable" || g[0] == "running" || g[0] == "sync.Mutex.Lock") {
+				busy[id]++
+			}
+		}
+	}
+	var spinning []string
+	kinds := map[string]int{}
+	for id, n := range busy {
+		if n == 5 {
+			kinds[cur[id]]++
+			if len(spinning) < 3 {
+				spinning = append(spinning, id+" ["+last[id][0]+"]:\n"+last[id][1])
+			}
+		}
+	}
+	if len(kinds) > 0 {
+		l.viol("uninstalled-filter-goroutine-spins", "filters", map[string]any{"trial": t, "spinning_goroutines_by_loop": kinds, "filter_goroutines_left": len(cur), "examples": trunc(strings.Join(spinning, "\n\n"), 4000)})
+		return
+	}
+	l.count("filters_trials_with_parked_goroutines_left_after_every_uninstall", 1)
 }
 
 // ---------------------------------------------------------------------------------------
